@@ -140,7 +140,16 @@ Definition c03_is (c : c03_case) : bool :=
       match o with
       | OPanic => false
       | OErr => true
-      | OAst a => balanced ts && ktoks_eq (yield a) (content_toks (i_toks i))
+      | OAst a => balanced ts && ktoks_eq (yield a) (content_toks (i_toks i)) &&
+                  (* an accepted input has the AST of its unique rendering: the parser model decides the rendering
+                     relation for every table with table_ok (C03_parse_iff_renders, C03_parse_sound_full /
+                     C03_parse_complete_full), so an AST that differs from the model's, or an AST where the model
+                     rejects, is a regrouped or wrongly accepted input - not only a model/implementation difference *)
+                  (negb (table_ok cfg) ||
+                   match model_obs i with
+                   | Some m => obs_eqb m o
+                   | None => true
+                   end)
       end
   | 2 => match o with OAst _ => true | _ => false end
   | _ => match o with OPanic => false | _ => true end
